@@ -25,7 +25,11 @@ TRUSTED_BASE = [
     "the Python harness: zone-table extraction from the pytz object the tool itself uses, datetime generator, outcome mapping",
     "pytz's transition table is taken to be the declared zone (the IANA database itself is not verified)",
     "strptime/csv parsing of well-formed fields; SQLite",
+    "translator tools/gen_schema.py: spowtd/schema.sql as parsed by SQLite itself (PRAGMA table_info / index_list / "
+    "foreign_key_list; CHECK clauses and view bodies cut from the stored CREATE text) -> lean/SchemaTie/Generated.lean; "
+    "the declarations the proofs assume are re-checked by `rfl` on every run (SchemaTie/Load.lean)",
 ]
+SCHEMA_TIE = ('Load',)
 ASSUMPTIONS = [
     "existing local datetimes at whole seconds (non-existent local times in a skipped hour are outside the property)",
     "for a repeated hour either of the two instants rendering to the text is accepted",
